@@ -44,3 +44,119 @@ Theorem C17_file_lookup_is_union :
     exists cc, compile rs = Some cc /\ forall c, lookup cc c = spec rs c.
 Proof. exact file_lookup_is_union. Qed.
 Print Assumptions C17_file_lookup_is_union.
+
+(* ==================================================================================================================
+   Shape facts: what Model/CharCat.v (collect_boundaries / apply_loop / apply_range / merge / fix_empty / lookup_aux) and
+   Model/Buffer.v (cat_of_range) were written for, re-extracted from dic/character_category.rs and
+   input_text/buffer/mod.rs on every run (gen/factmods/CharCatShape.py; names of locals, white space and the order of
+   independent statements do not matter). *)
+From Coq Require Import String.
+From SudachiVerif Require Generated.CharCatShape Generated.CategoryFacts.
+From SudachiVerif Require Model.Buffer Proofs.BufferCharProofs Proofs.CatOfRangeProofs.
+Import ListNotations.
+
+(* boundaries = the sorted, duplicate-free set of all begins and ends (Model: collect_boundaries folds `ins` of rb and re) *)
+Fact C17_fact_boundaries : Generated.CharCatShape.boundary_fields = ["begin"; "end"]%string.
+Proof. vm_compute. reflexivity. Qed.
+(* every line ORs its classes into every split it covers, leaving the loop only past its end: a union over ALL covering
+   lines - not first match, not last match, no early exit (Model: apply_loop `if re r <? b then cs else N.lor c (rc r) :: ..`) *)
+Fact C17_fact_fill_is_union :
+  (Generated.CharCatShape.fill_break_condition, Generated.CharCatShape.fill_update)
+  = ("boundaries[i]>range.end", "categories[i]|=range.categories;")%string.
+Proof. vm_compute. reflexivity. Qed.
+(* successive splits with equal classes are merged (Model: merge `if c =? lc`), empty sets become DEFAULT (fix_empty),
+   ONE DEFAULT entry is always appended for everything above the last boundary (Model: `.. ++ [DEFAULT]`) *)
+Fact C17_fact_merge_and_default_fill :
+  (Generated.CharCatShape.merge_condition, Generated.CharCatShape.trailing_entry, Generated.CharCatShape.table_fields)
+  = ("categories[i]==last_category", "final_categories.push(CategoryType::DEFAULT);",
+     "boundaries:final_boundaries,categories:final_categories,")%string.
+Proof. vm_compute. reflexivity. Qed.
+(* lookup: binary search of the code point; found at idx -> categories[idx + 1], insertion point idx -> categories[idx]
+   (Model: lookup_aux = "categories[number of boundaries <= c]") *)
+Fact C17_fact_lookup :
+  (Generated.CharCatShape.lookup_found, Generated.CharCatShape.lookup_not_found)
+  = ("self.categories[idx+1]", "self.categories[idx]")%string.
+Proof. vm_compute. reflexivity. Qed.
+(* cat_of_range: no class for the empty range; otherwise the fold of `&` over the range starting from ALL declared bits
+   (CategoryType::all(), Model/Buffer.v cat_all) ... *)
+Fact C17_fact_cat_of_range :
+  (Generated.CharCatShape.range_empty_answer, Generated.CharCatShape.range_fold_seed, Generated.CharCatShape.range_fold_step)
+  = ("CategoryType::empty()", "CategoryType::all()", "acc&*x")%string.
+Proof. vm_compute. reflexivity. Qed.
+(* ... which contain the marker classes NOOOVBOW / NOOOVBOW2, while the named constant ALL does not *)
+Fact C17_fact_all_bits_keep_markers :
+  N.land Buffer.cat_all Generated.CategoryFacts.NOOOVBOW = Generated.CategoryFacts.NOOOVBOW
+  /\ N.land Buffer.cat_all Generated.CategoryFacts.NOOOVBOW2 = Generated.CategoryFacts.NOOOVBOW2
+  /\ N.land Generated.CategoryFacts.ALL (N.lor Generated.CategoryFacts.NOOOVBOW Generated.CategoryFacts.NOOOVBOW2) = 0.
+Proof. vm_compute. repeat split; reflexivity. Qed.
+
+(* cat_of_range over characters whose classes are declared class bits (what get_category_types reports): bit k is set
+   iff EVERY character of the range has it - the intersection, markers included; for all ranges inside the text *)
+Theorem C17_cat_of_range_is_intersection :
+  forall (cats : list N) (a b : nat), (a < b)%nat -> (b <= List.length cats)%nat ->
+    (forall i, (a <= i)%nat -> (i < b)%nat -> CatOfRangeProofs.declared (nth i cats 0)) ->
+    exists r, Buffer.cat_of_range cats a b = Some r /\
+      forall k, N.testbit r k = true <-> (forall i, (a <= i)%nat -> (i < b)%nat -> N.testbit (nth i cats 0) k = true).
+Proof. exact CatOfRangeProofs.cat_of_range_is_intersection. Qed.
+Print Assumptions C17_cat_of_range_is_intersection.
+
+Theorem C17_cat_of_range_single :
+  forall (cats : list N) (i : nat), (i < List.length cats)%nat -> CatOfRangeProofs.declared (nth i cats 0) ->
+    Buffer.cat_of_range cats i (S i) = Some (nth i cats 0).
+Proof. exact CatOfRangeProofs.cat_of_range_single. Qed.
+Print Assumptions C17_cat_of_range_single.
+
+Theorem C17_cat_of_range_empty :
+  forall (cats : list N) (a b : nat), (b <= a)%nat -> Buffer.cat_of_range cats a b = Some 0.
+Proof. exact BufferCharProofs.cat_of_range_empty. Qed.
+Print Assumptions C17_cat_of_range_empty.
+
+(* ==================================================================================================================
+   Which file a relative `characterDefinitionFile` names (Model/PathResolve.v; the same route resolves systemDict, userDict
+   and the plugins' definition files, so C13 / C07 may reuse the model).  The file system is abstract (exists_in,
+   exists_cwd); anchors = `path`, resource directory, root directory in this order, duplicates dropped. *)
+From SudachiVerif Require Import Model.PathResolve Proofs.PathResolveProofs.
+From SudachiVerif Require Generated.PathResolveFacts.
+
+(* the anchors are added in the order path, resource directory, root directory; first_existing tries them in that order;
+   complete_path: absolute as it is, else the first existing anchor, else the working directory, else an error *)
+Fact C17_fact_resolution_order :
+  Generated.PathResolveFacts.anchor_order = ["path"; "resource_dir"; "rootDirectory"]%string
+  /\ Generated.PathResolveFacts.first_existing_body = "self.all_candidates(path).find(|p|p.exists())"%string
+  /\ Generated.PathResolveFacts.all_candidates_body = "self.roots.iter().map(move|root|root.join(path.clone()))"%string
+  /\ Generated.PathResolveFacts.complete_path_steps
+     = ["pref.is_absolute()=>Ok(file_path.into())"; "Some=self.resolver.first_existing(pref)=>Ok(p)";
+        "pref.exists()=>Ok(file_path.into())"; "otherwise=>Err"]%string.
+Proof. vm_compute. repeat split; reflexivity. Qed.
+
+(* what complete_path answers: an absolute name as it is; otherwise the FIRST anchor (in the order above) that holds the
+   file; the working directory only when no anchor holds it; an error only when nothing holds it *)
+Theorem C17_resolved_file_is_first_existing_anchor :
+  forall (dir file : Type) (is_absolute : file -> bool) (exists_in : dir -> file -> bool) (exists_cwd : file -> bool)
+         (roots : list dir) (f : file),
+    match complete_path dir file is_absolute exists_in exists_cwd roots f with
+    | AsIs => is_absolute f = true
+    | InAnchor d => is_absolute f = false /\
+                    exists pre post, roots = (pre ++ d :: post)%list /\ exists_in d f = true /\ forall x, In x pre -> exists_in x f = false
+    | InCwd => is_absolute f = false /\ (forall x, In x roots -> exists_in x f = false) /\ exists_cwd f = true
+    | NotFound => is_absolute f = false /\ (forall x, In x roots -> exists_in x f = false) /\ exists_cwd f = false
+    end.
+Proof. exact complete_path_spec. Qed.
+Print Assumptions C17_resolved_file_is_first_existing_anchor.
+
+(* no lower-priority location is chosen when a higher one holds the file *)
+Theorem C17_higher_anchor_wins :
+  forall (dir file : Type) (is_absolute : file -> bool) (exists_in : dir -> file -> bool) (exists_cwd : file -> bool)
+         (roots : list dir) (f : file) (i : nat) (d : dir),
+    is_absolute f = false -> nth_error roots i = Some d -> exists_in d f = true ->
+    exists j d', (j <= i)%nat /\ nth_error roots j = Some d' /\
+                 complete_path dir file is_absolute exists_in exists_cwd roots f = InAnchor d'.
+Proof. exact higher_anchor_wins. Qed.
+Print Assumptions C17_higher_anchor_wins.
+
+(* the anchors of a configuration with three different directories: path, resource directory, root directory *)
+Theorem C17_anchor_order :
+  forall (dir : Type) (eqb : dir -> dir -> bool) p r o,
+    eqb r p = false -> eqb o p = false -> eqb o r = false -> anchors dir eqb (Some p) r (Some o) = [p; r; o].
+Proof. exact anchors_order. Qed.
+Print Assumptions C17_anchor_order.
